@@ -37,7 +37,7 @@ CLAIMED.update({
     'C18': dict(
         text='One Lean dialect serves both ports: C18_quote_agree / C18_rfc_quote_agree (Python two-step and JS single-condition quoting coincide), C18_readers_same_lines (pull reader and push reader '
              'see the same physical lines of any file however chunked). Both implementations are run on every case against the one model and against each other.',
-        note='Partial: record-level agreement of the two reader machines (RFC assembly, comments, counters) and header derivation are tied by the correspondence, not yet proved.',
+        note='C18_readers_agree(_any_chunking): record-level agreement of the two reader machines is proved (hypothesis CommentOK: no LF-after-odd-quotes comment prefix under quoted_rfc). Header derivation from a select list and the shared splitter are tied by the correspondence (one Lean function models both ports).',
         ref='DESIGN.md section 7, C18'),
     'C20': dict(
         text='Theorems C20_lines_chunk_independent and C20_stream_eq_bulk: for EVERY partition of the decoded text the JS stream reader model processes the lines of the whole text and ends in the '
